@@ -104,8 +104,9 @@ def run(sc, tier, seed):
         V.log("stuck lifecycle call (TaskMaster abandoned, trace cut short):", h)
     files = meta["trace_files"]
     seq = [f for f in files if f.endswith("seq.ndjson")]
-    # impl level: the histories with races always, the exhaustive singles/pairs in the thorough tier
-    impl_files = [f for f in files if f.endswith("mix.ndjson")] + (seq if tier == "thorough" else [])
+    # impl level: the targeted and random histories (the exhaustive ones cost millions of
+    # silent-step states at this level and add nothing the verdict level does not decide)
+    impl_files = [f for f in files if f.endswith("mix.ndjson")]
     # verdict level: every recorded line against what the property promises
     # (one concatenated file: fewer, fuller JVMs)
     allf = os.path.join(out, "all.ndjson")
